@@ -64,7 +64,9 @@ func checkC16(t TB, c ConcCase) {
 		want[i] = sequentialRef(s, c.Scale && !c.ColdStart)
 	}
 	if c.ColdStart {
-		out, stderr, code, err := runOneshot(true, c.Specs, "concurrent", fmt.Sprint(c.Procs))
+		// after the contention the same process runs the whole RS-degree pool sequentially: a cache that was
+		// corrupted by racing first requests shows in later, purely sequential calls
+		out, stderr, code, err := runOneshot2(true, c.Specs, rsPool, "concurrent", fmt.Sprint(c.Procs))
 		switch {
 		case err != nil:
 			t.Fatalf("cannot run the cold-start helper: %v", err)
@@ -78,6 +80,11 @@ func checkC16(t TB, c ConcCase) {
 		for i := range c.Specs {
 			if out.Fingerprints[i] != want[i] {
 				failf(t, P, K, c, "cold start: concurrent call %d (%s) returned a different barcode than the same call alone", i, c.Specs[i].Label())
+			}
+		}
+		for i, sp := range rsPool {
+			if i < len(out.AfterFingerprints) && out.AfterFingerprints[i] != sequentialRef(sp, false) {
+				failf(t, P, K, c, "cold start: after the concurrent first calls, a sequential call (%s, RS degree class %d) in the same process returned a different barcode than the same call alone", sp.Label(), rsDegree(sp))
 			}
 		}
 		if out.GoroutinesAfter > out.GoroutinesBefore {
@@ -157,6 +164,92 @@ var errorPathSpecs = []EncSpec{
 	{Fam: "qr", Content: BStr("HELLO WORLD"), A: 1, B: 2}, {Fam: "qr", Content: BStr("HELLO WORLD"), A: 1, B: 0},
 }
 
+// TestC16LeakSweep: one call at a time, every QR numeric / alphanumeric / auto length up to a bound x 4 levels
+// (the producer/consumer pipelines of the QR encoder must always be drained), plus the error paths and one
+// call per other family; after every call the goroutine count must return to its previous value.
+func TestC16LeakSweep(t *testing.T) {
+	st := NewStats("C16", "leak-sweep")
+	defer st.Flush()
+	maxN := 330
+	if thorough() {
+		maxN = 1800
+	}
+	base := runtime.NumGoroutine()
+	shards, me, seq := envInt("VERIF_SHARDS", 1), shard(), 0
+	check := func(s EncSpec) {
+		seq++
+		if seq%shards != me {
+			return
+		}
+		encodeSpec(s)
+		st.Eval()
+		left := runtime.NumGoroutine()
+		for i := 0; i < 400 && left > base; i++ {
+			time.Sleep(2 * time.Millisecond)
+			left = runtime.NumGoroutine()
+		}
+		if left > base {
+			buf := make([]byte, 1<<16)
+			buf = buf[:runtime.Stack(buf, true)]
+			failf(t, "C16", "goroutine-leak", s, "%d goroutines before the call, %d still alive 0.8 s after it returned:\n%s", base, left, tail(string(buf), 2500))
+		}
+	}
+	for n := 0; n <= maxN; n++ {
+		for l := 0; l < 4; l++ {
+			check(EncSpec{Fam: "qr", Content: BStr(fillPattern(1, int64(n), n)), A: l, B: 1})
+			check(EncSpec{Fam: "qr", Content: BStr(fillPattern(2, int64(n), n)), A: l, B: 2})
+			if n%3 == 0 {
+				check(EncSpec{Fam: "qr", Content: BStr(fillPattern(2, int64(n), n)), A: l, B: 0})
+				check(EncSpec{Fam: "qr", Content: BStr(fillPattern(1, int64(n), n)), A: l, B: 0})
+			}
+		}
+		st.NonTrivialN(8)
+	}
+	// capacity boundaries of every version (numeric / alphanumeric), where terminator and padding meet
+	for v := 1; v <= 40; v++ {
+		for l := 0; l < 4; l++ {
+			for mode := 1; mode <= 2; mode++ {
+				cp := qrCapacity(v, l, qrIndicator[mode])
+				for d := 0; d <= 3 && cp-d >= 0; d++ {
+					if v > 12 && !thorough() && d > 1 {
+						continue
+					}
+					check(EncSpec{Fam: "qr", Content: BStr(fillPattern(mode, int64(v), cp-d)), A: l, B: mode})
+					st.NonTrivialN(1)
+				}
+			}
+		}
+	}
+	for _, s := range errorPathSpecs {
+		check(s)
+	}
+	for _, s := range rsPool {
+		check(s)
+	}
+	for _, h := range hostileStrings {
+		for _, fam := range allFamilies {
+			check(EncSpec{Fam: fam, Content: BStr(h), A: 1, B: 2})
+		}
+	}
+	st.Sample("leak-sweep", EncSpec{Fam: "qr", Content: BStr("00000000000000000000000000000000000000000"), A: 0, B: 1})
+	st.Set("sweep_domain", fmt.Sprintf("QR numeric/alphanumeric lengths 0..%d x 4 levels (+Auto every 3rd), capacity-0..3 of every version, error paths, RS pool, hostile constants x 12 families", maxN))
+}
+
+func init() {
+	register("goroutine-leak", func(t TB, s EncSpec) {
+		base := runtime.NumGoroutine()
+		encodeSpec(s)
+		left := runtime.NumGoroutine()
+		for i := 0; i < 400 && left > base; i++ {
+			time.Sleep(2 * time.Millisecond)
+			left = runtime.NumGoroutine()
+		}
+		if left > base {
+			t.Fatalf("%d goroutines before the call, %d still alive after it returned", base, left)
+		}
+	})
+}
+
 func genConcCase(t *rapid.T) ConcCase {
 	c := ConcCase{Procs: rapid.SampledFrom([]int{1, 2, 4, 16}).Draw(t, "procs"), Scale: rapid.Bool().Draw(t, "scale"),
 		ColdStart: rapid.IntRange(0, 3).Draw(t, "cold") == 0, Repeat: rapid.IntRange(1, 3).Draw(t, "repeat")}
@@ -168,6 +261,13 @@ func genConcCase(t *rapid.T) ConcCase {
 			c.Specs = append(c.Specs, rsPool[rapid.IntRange(0, len(rsPool)-1).Draw(t, "pool")])
 		case kind == 2 && i%3 == 0:
 			c.Specs = append(c.Specs, errorPathSpecs[rapid.IntRange(0, len(errorPathSpecs)-1).Draw(t, "errpath")])
+		case kind == 3 && i%2 == 0:
+			// QR contents at / next to a capacity boundary (terminator and padding edge cases of the pipelines)
+			q := genQRCase(t)
+			if len(q.Content) > 600 {
+				q.Content = q.Content[:600]
+			}
+			c.Specs = append(c.Specs, EncSpec{Fam: "qr", Content: q.Content, A: q.Level, B: q.Mode})
 		default:
 			s := genEncSpec(t, rapid.SampledFrom([]int{0, 0, 1}).Draw(t, "size"))
 			if rapid.IntRange(0, 3).Draw(t, "col") == 0 {
@@ -220,6 +320,13 @@ func TestC16ColdStart(t *testing.T) {
 			k := (r*7 + p) % len(specs)
 			specs = append(specs[k:], specs[:k]...)
 			cases = append(cases, ConcCase{Specs: specs, Procs: p, ColdStart: true})
+			// only the lower / only every third degree concurrently, the rest afterwards (sequential phase)
+			cases = append(cases, ConcCase{Specs: append([]EncSpec{}, rsPool[:len(rsPool)/3+r%5]...), Procs: p, ColdStart: true})
+			var third []EncSpec
+			for i := r % 3; i < len(rsPool); i += 3 {
+				third = append(third, rsPool[i], rsPool[i])
+			}
+			cases = append(cases, ConcCase{Specs: third, Procs: p, ColdStart: true})
 			cases = append(cases, ConcCase{Specs: append(append([]EncSpec{}, errorPathSpecs...), specs[:8]...), Procs: p, ColdStart: true})
 		}
 	}
